@@ -68,15 +68,21 @@ def build_variant(scale):
     ensure_lock()
     tdir = os.path.join(TARGET, scale)
     cmd = ["cargo", "build", "--offline", "-p", "vcheck", "--target-dir", tdir]
-    if scale != "prod":
+    env = cargo_env(scale if scale in SCALES else None)
+    binp = os.path.join(tdir, "debug", "vcheck")
+    if scale == "asan":
+        # AddressSanitizer build (nightly), production constants
+        cmd = ["cargo", "+nightly", "build", "--offline", "-p", "vcheck", "--target-dir", tdir, "--target", "x86_64-unknown-linux-gnu"]
+        env["RUSTFLAGS"] = "-Zsanitizer=address -Cforce-frame-pointers=yes"
+        binp = os.path.join(tdir, "x86_64-unknown-linux-gnu", "debug", "vcheck")
+    elif scale != "prod":
         cmd += ["--features", "scaled"]
     t0 = time.time()
-    r = subprocess.run(cmd, cwd=HARNESS, env=cargo_env(scale), stdout=subprocess.PIPE, stderr=subprocess.STDOUT, text=True)
+    r = subprocess.run(cmd, cwd=HARNESS, env=env, stdout=subprocess.PIPE, stderr=subprocess.STDOUT, text=True)
     if r.returncode != 0:
         sys.stdout.write(r.stdout[-6000:])
         raise HarnessError(f"build of variant {scale} failed")
-    binp = os.path.join(tdir, "debug", "vcheck")
-    if scale != "prod":
+    if scale not in ("prod", "asan"):
         got = json.loads(subprocess.run([binp, "consts"], stdout=subprocess.PIPE, text=True).stdout)
         want = SCALES[scale]
         if any(got[k] != want[k] for k in want):
@@ -145,7 +151,9 @@ class Run:
             cmd = [binp] + args + ["--tier", self.tier, "--seed", str(self.seed), "--shard", f"{i}/{shards}",
                                     "--budget", str(budget_s), "--out", sdir]
             outp = open(os.path.join(sdir, f"out.{i}"), "wb")
-            p = subprocess.Popen(cmd, stdout=outp, stderr=subprocess.DEVNULL, cwd=sdir)
+            errp = open(os.path.join(sdir, f"err.{i}"), "wb")
+            p = subprocess.Popen(cmd, stdout=outp, stderr=errp, cwd=sdir, env=dict(os.environ, ASAN_OPTIONS="detect_leaks=0:abort_on_error=1"))
+            errp.close()
             procs.append((i, p, outp, cmd, 0))
         hard = budget_s * hard_factor + 120
         stage = dict(name=name, scale=scale, shards=shards, crashes=0, watchdog=0)
@@ -187,7 +195,15 @@ class Run:
                 elif sig == signal.SIGKILL:
                     self.inconc.append(dict(what="killed (SIGKILL, probably out of memory)", stage=name, shard=i, case=case))
                 else:
-                    self.record_crash(scale, case, sig, name)
+                    tail = ""
+                    try:
+                        with open(os.path.join(sdir, f"err.{i}"), "rb") as ef:
+                            ef.seek(0, 2)
+                            ef.seek(max(0, ef.tell() - 3000))
+                            tail = ef.read().decode(errors="replace")
+                    except Exception:
+                        pass
+                    self.record_crash(scale, case, sig, name, tail)
                 if case is not None and resumes < 200:
                     cmd2 = [c for c in cmd]
                     if "--resume-after" in cmd2:
@@ -196,7 +212,9 @@ class Run:
                     else:
                         cmd2 += ["--resume-after", str(case["i"])]
                     outp2 = open(os.path.join(sdir, f"out.{i}"), "ab")
-                    p2 = subprocess.Popen(cmd2, stdout=outp2, stderr=subprocess.DEVNULL, cwd=sdir)
+                    errp2 = open(os.path.join(sdir, f"err.{i}"), "ab")
+                    p2 = subprocess.Popen(cmd2, stdout=outp2, stderr=errp2, cwd=sdir, env=dict(os.environ, ASAN_OPTIONS="detect_leaks=0:abort_on_error=1"))
+                    errp2.close()
                     nxt.append((i, p2, outp2, cmd2, resumes + 1))
             pending = nxt
             if pending:
@@ -217,12 +235,20 @@ class Run:
             f"{stage['crashes']} process deaths, {stage['wall_s']}s")
         return stage
 
-    def record_crash(self, scale, case, sig, stage):
+    def record_crash(self, scale, case, sig, stage, stderr_tail=""):
         inner = (case or {}).get("case") or {}
         prop = inner.get("prop", self.prop)
+        kind = "abort"
+        m = re.search(r"ERROR: AddressSanitizer: ([a-zA-Z-]+)", stderr_tail)
+        if m:
+            kind = "asan-" + m.group(1)
+        elif "stack overflow" in stderr_tail:
+            kind = "stack-overflow"
+        if scale == "asan":
+            scale = "prod"  # same constants, instrumented build
         rec = dict(k="viol", prop="C08" if self.prop != "C02" and prop != "C02" else "C02",
-                   sig=f"abort:signal{sig}:{prop}", scale=scale, scenario=inner.get("scenario"),
-                   detail=dict(signal=sig, stage=stage), **{"from": prop})
+                   sig=f"{kind}:signal{sig}:{prop}", scale=scale, scenario=inner.get("scenario"),
+                   detail=dict(signal=sig, stage=stage, stderr_tail=stderr_tail[-1200:]), **{"from": prop})
         if self.prop == "C08":
             rec["prop"] = "C08"
         self.viols.append(rec)
@@ -259,6 +285,8 @@ class Run:
                         self.timed_out_shards += 1
                 elif k == "viol":
                     stage["viol"] = stage.get("viol", 0) + 1
+                    if stage.get("scale") == "asan":
+                        rec["scale"] = "prod"
                     self.viols.append(rec)
                 elif k == "inconc":
                     self.inconc.append(rec)
